@@ -272,6 +272,8 @@ def run_verus_property(pid, cfg, tier, seed, clock):
             # bounded cross-check (NOT proof): executable forms of the proved postconditions and of
             # the ASSUMED callee contracts on random short histories against the real code
             import native_search
+            # the thorough tier explores more histories (5000 API-level runs instead of 400)
+            os.environ.setdefault("VERIF_NATIVE_API_RUNS", "5000")
             native_cross = native_search.search(pid, [], seed, log_dir)
             if native_cross.get("found"):
                 undecided.append("native cross-check contradicts a contract that Verus accepts (an ASSUMED contract is wrong, "
